@@ -59,7 +59,7 @@ class C05(PropBase):
     per_file = 60
     rule = ("random ADMGs with 2..5 nodes (6 thorough) x disjoint X, Y x 0..2 source domains with random experiment sets Z_i and surrogate-outcome sets W_i; "
             "30% of the cases have no domain at all (TRSO must then agree with ID); 30% two-domain family; 20% napkin-like chains with skip-level bidirected edges (lines 9/10). Non-trivial: a source-domain term appears in the answer, or the "
-            "recursion used a topological order, or the answer is None; distinct by input")
+            "recursion used a topological order, or the answer is None; distinct by input; one query per shape of run of ID that goes through line 7 (= TRSO line 10), alone and with a random source domain (harness/corpus/id_traces.json)")
     explanation = ("identify_target_outcomes compared with the Gallina model of transport.py (recorded topological orders replayed; population-tagged parents "
                    "compared as sets); each estimand is evaluated exactly on a family of SCMs that differ from the target exactly at the transported "
                    "nodes, against P*(y | do x); without domains the verdict is compared with the Tian-Pearl identifiability criterion")
